@@ -1162,9 +1162,14 @@ func (envs *Manager) handleDeviceEvent(evt event.DeviceEvent) {
 				WithField("envState", env.CurrentState()).
 				WithField(infologger.Level, infologger.IL_Support).
 				Debug("received TASK_INTERNAL_ERROR event from task, trying to stop the run")
-			if env.CurrentState() == "RUNNING" {
+			if envState := env.CurrentState(); envState == "RUNNING" || envState == "CONFIGURED" {
 				go func() {
+					// the role goes to ERROR in every live state: for a critical task the workflow state
+					// watcher then moves the environment to ERROR
 					t.GetParent().UpdateState(sm.ERROR)
+					if envState != "RUNNING" {
+						return
+					}
 					if !t.GetTraits().Critical {
 						// the failure of a non-critical task must not end the run
 						return
